@@ -328,7 +328,9 @@ class RenderAnnotation(GenericTypeRewriter[str]):
         elif isinstance(typ, NoneType) or typ is NoneType:
             rendered = "None"
         elif is_generic(typ):
-            rendered = repr(typ)
+            # repr() marks the variance of a type variable (~T, +T_co, -T_contra),
+            # which is not Python syntax: Iterable[~T] must read Iterable[T]
+            rendered = re.sub(r"(?<=[\[ ,])[~+-](?=[^\W\d])", "", repr(typ))
         elif isinstance(typ, type):
             if typ.__module__ in ("builtins",):
                 rendered = typ.__qualname__
@@ -348,12 +350,8 @@ class RenderAnnotation(GenericTypeRewriter[str]):
 
     def rewrite_type_variable(self, type_variable: Any) -> str:
         rendered = str(type_variable)
-        tilde_prefix = "~"
-        return (
-            rendered[len(tilde_prefix) :]
-            if rendered.startswith(tilde_prefix)
-            else rendered
-        )
+        # ~T, +T_co, -T_contra: the variance marker is not part of the name
+        return rendered[1:] if rendered[:1] in ("~", "+", "-") else rendered
 
     def make_builtin_tuple(self, elements: Iterable[str]) -> str:
         elems = list(elements)
